@@ -42,7 +42,7 @@ try:
             r = subprocess.run([f"{snap}/check", c, "--tier", "quick"], env=e, capture_output=True, text=True, timeout=7200)
             sigs = [l.strip() for l in r.stdout.splitlines() if l.strip().startswith("signature:")]
             out["checks"][c] = {"exit": r.returncode, "signatures": sigs[:12], "wall_s": round(time.time() - t0),
-                                "tail": r.stdout[-600:] if r.returncode == 2 else ""}
+                                "tail": (r.stdout[-600:] + "\n--- stderr ---\n" + r.stderr[-1500:]) if r.returncode == 2 else ""}
 finally:
     subprocess.run(["git", "-C", "/repo", "worktree", "remove", "--force", wt], capture_output=True)
     shutil.rmtree(wt, ignore_errors=True)
